@@ -303,12 +303,13 @@ def onboarding(m: int, onb: int, echo: bool, a0: int, a1: int, a2: int, p0: int,
         return policy_ok(got_pin) or (any_pin and not given and alnum_only(got_pin))
 
 
-@obligation(tier="quick", parts=2, timeout=240, part_names=["ledger", "sgx"],
+@obligation(tier="quick", parts=2, timeout=420, part_names=["ledger", "sgx"],
             bounds="all preconditions hold and the operator says yes; ONE exchange of the flow (symbolic index 0..59) loses its answer: "
                    "time-out | write error | read error, either before the device saw the command or after it carried it out "
                    "(symbolic); oracle: no seed byte and no wipe / onboard command reaches a device that is already onboarded",
             examples=[(0, dict(k=0, kind=2, after=False)), (0, dict(k=45, kind=2, after=True)), (1, dict(k=3, kind=2, after=True)),
-                      (0, dict(k=59, kind=4, after=True))])
+                      (0, dict(k=59, kind=4, after=True)), (0, dict(k=44, kind=2, after=True)), (0, dict(k=44, kind=4, after=True)),
+                      (0, dict(k=43, kind=2, after=True))])
 def onboarding_lost_answer(k: int, kind: int, after: bool) -> bool:
     """
     pre: 0 <= k <= 59 and 2 <= kind <= 4
